@@ -17,6 +17,8 @@
 (*  A1 an int against a float of the same numeric value is a MAY difference (it may be     *)
 (*     reported or not: "equal up to numeric width" can be read either way); when one of   *)
 (*     the two is outside the exactly representable small range it is MAY as well.         *)
+(*  A1' ... but it is ONE reading: the simple and the gen representation of a pair, and the two  *)
+(*     argument orders, must treat a MAY member alike (JudgeUniform, JudgeSymmetric).          *)
 (*  A2 an array length difference is the tail from min(len) on; it counts as reported by   *)
 (*     one path at any tail index at or before the member, or by a path above it.          *)
 (*  A3 a returned path is sound when a truth member lies at, below or above it.            *)
@@ -256,6 +258,32 @@ JudgeObs(x, y, igs, o, tr) ==
                loc |-> <<IF o.c = <<>> THEN "nil-but-diff-nonempty" ELSE IF D = {} THEN "path-but-diff-empty" ELSE "path-not-in-diff",
                          IF igs = {} THEN "no-ignore" ELSE "with-ignore">>]>>
        ELSE <<>>)
+\* A1' (one reading): A1 leaves open whether an int and a float of the same value differ, but "equal up to numeric
+\* width" is a relation on VALUES: the same pair of values given as simple data and as gen data must be read the same way
+\* at every location (a MAY member is under a returned path in both forms or in neither).  ds, dg = what Diff returned
+\* for the simple and for the gen form of the pair (no ignore paths); only compared when both forms have the same projection.
+MayCovered(T, D) == \E P \in D : Prefix(P, T.p)
+JudgeUniform2(tr, ds, dg, what, n1, n2) ==
+   LET Ds == {NormP(P) : P \in SeqSet(ds)}
+       Dg == {NormP(P) : P \in SeqSet(dg)}
+       bad == {T \in tr : T.c = "may" /\ MayCovered(T, Ds) # MayCovered(T, Dg)} IN
+   IF bad = {} THEN <<>>
+   ELSE LET T == CHOOSE T \in bad : \A U \in bad : Len(T.p) <= Len(U.p) IN
+        <<[kind |-> "numeric-reading-differs",
+           loc |-> <<what, IF T.p = <<>> THEN "root" ELSE "nested", IF MayCovered(T, Dg) THEN n2 ELSE n1>>]>>
+JudgeUniform(tr, ds, dg) == JudgeUniform2(tr, ds, dg, "simple-vs-gen", "simple-reports", "gen-reports")
+\* ... and the same way in both argument orders (equality is symmetric): dab, dba = Diff(x, y) and Diff(y, x), no ignore paths
+JudgeSymmetric(x, y, tr, dab, dba) ==
+   LET Dab == {NormP(P) : P \in SeqSet(dab)}
+       Dba == {NormP(P) : P \in SeqSet(dba)}
+       bad == {T \in tr : T.c = "may" /\ MayCovered(T, Dab) # MayCovered(T, Dba)} IN
+   IF bad = {} THEN <<>>
+   ELSE LET T == CHOOSE T \in bad : \A U \in bad : Len(T.p) <= Len(U.p) IN
+        <<[kind |-> "numeric-reading-differs",
+           loc |-> <<"ab-vs-ba", IF T.p = <<>> THEN "root" ELSE "nested",
+                     \* small = both numbers inside TLC's exact range (|n| <= 2^30), big = beyond it (float64 cannot hold every int64)
+                     IF SmallNum(At(x, T.p)) /\ SmallNum(At(y, T.p)) THEN "small" ELSE "big",
+                     IF MayCovered(T, Dab) = (At(x, T.p).t = "int") THEN "int-first-reports" ELSE "float-first-reports">>]>>
 RECURSIVE HasU64(_)
 HasU64(z) == IF z.t \in {"arr", "obj"} THEN \E j \in 1..Len(z.v) : HasU64(z.v[j]) ELSE "f64" \in DOMAIN z
 \* got: what Match(f, t) returned
